@@ -498,6 +498,9 @@ func caseLabels(c Case, obs *Obs) []string {
 			for _, cl := range st.Calls {
 				set["call:"+cl] = true
 			}
+			for _, a := range st.Args {
+				set["arg:"+a] = true
+			}
 			if st.Raise {
 				set["script:has-unprotected-raise"] = true
 				if k < len(s.Stmts)-1 {
